@@ -101,9 +101,14 @@ static inline uint32_t elem_key(void const *p, size_t z)
 static size_t g_cb_z = 4;
 static uint64_t g_cmp_calls = 0;
 static int g_cmp_style = 0; // 0: -1/0/+1   1: key difference   2: huge magnitudes (the documentation fixes only the sign)
+// an address range that can never hold an element (the queue object with its embedded ring sentinel): a comparator
+// call on it means a sentinel was taken for a member
+static uintptr_t g_cmp_forbid_lo = 0, g_cmp_forbid_len = 0;
+static bool g_cmp_forbidden_hit = false;
 static int elem_cmp(void const *l, void const *r)
 {
     ++g_cmp_calls;
+    if (g_cmp_forbid_len && ((uintptr_t)l - g_cmp_forbid_lo < g_cmp_forbid_len || (uintptr_t)r - g_cmp_forbid_lo < g_cmp_forbid_len)) { g_cmp_forbidden_hit = true; return 0; }
     uint32_t a = elem_key(l, g_cb_z), b = elem_key(r, g_cb_z);
     if (a == b) return 0;
     switch (g_cmp_style)
